@@ -648,6 +648,8 @@ func (db *Database) GetSuggestions(query string, maxSuggestions int) []string {
 	for word := range wordSet {
 		words = append(words, word)
 	}
+	// The matcher's stable sort keeps input order among equal scores
+	sort.Strings(words)
 
 	// Find fuzzy matches for the query
 	matches := fuzzy.Find(query, words)
